@@ -31,8 +31,15 @@ TBegin ==
     /\ case' = RDecodeCase(Obs[l].case) /\ hooked' = Obs[l].hooked /\ ms' = RBlankMS
     /\ UNCHANGED <<pc, i, stack, pend, ops>>
 
+\* a diagnostic the realised file does not have by construction ("cx"): nothing to replay; if it is reported, the
+\* output is judged at End (its code is outside every universe: "changes no other diagnostic")
+TUnexpected ==
+    /\ Obs[l].event = "ShowError" /\ Obs[l].code = "cx"
+    /\ Say(Obs[l].tid, "drift:unexpected-diagnostic:" \o Obs[l].real \o ":" \o Obs[l].decision)
+    /\ UNCHANGED <<case, pc, i, ms, stack, pend, ops, hooked>>
+
 TShow ==
-    /\ Obs[l].event = "ShowError"
+    /\ Obs[l].event = "ShowError" /\ Obs[l].code # "cx"
     /\ LET o == Obs[l]
            r == ImplShow(ImplCase(case), ms, o.code, o.lineno, FALSE)
        IN /\ ms' = Log(r.ms, o.code, o.lineno, r.decision)
@@ -90,5 +97,5 @@ TEnd ==
               ELSE TRUE)
     /\ UNCHANGED <<case, pc, i, ms, stack, pend, ops, hooked>>
 
-TNext == l <= Len(Obs) /\ (TBegin \/ TShow \/ TCaught \/ TMeta \/ TEnd) /\ l' = l + 1
+TNext == l <= Len(Obs) /\ (TBegin \/ TUnexpected \/ TShow \/ TCaught \/ TMeta \/ TEnd) /\ l' = l + 1
 =============================================================================
